@@ -143,7 +143,7 @@ ADD = {
                 note=' The executable model is compared with NatafTransformation on random problems: L 1e-11, L^-1 1e-9, getU / getX 1e-8, returned matrices 1e-7, closed-form latent correlation vs rhoZ 2e-6. Marginal families of the executable model: normal, lognormal (closed forms, theorems outright) and exponential, uniform, Gumbel, Weibull (constructor Marg.general: composed maps built by the driver from a double-precision Phi / Phi^-1 validated against scipy on every run; at the reals constrained by Marg.Valid).'),
     'C12': dict(technique=' + an EXECUTABLE model of the curvature extraction (Model/SormPipe.lean) compared with mainCurvaturesAtDesignPoint through the eigenvalues of its block + the three closing formulas REGENERATED from the numpy vector expressions of the source on every run (harness/translate_vec.py) and proved equal to the model for every scalar type',
                 text=' breitungPf_eq / tvedtPf_eq / hrackPf_eq: the definitions regenerated from the source text are the model definitions the theorems are about (for every scalar instance, so also for the Float instance evaluated against the implementation).',
-                note=' Translation validation of the regenerated formulas at Float against breitungSORM / tvedtSORM / hrackSORM (1e-11, Tvedt 1e-9). The curvature-extraction model (gradient pull-back, alignment vector, argmax column, Gram-Schmidt, U-space Hessian with the curvature of the marginal maps, conjugation) is compared with the implementation on random normal / lognormal problems at 2e-5; theorems C12p_block_flat (flat limit surface => all entries 0, so SORM = FORM end to end on the model), C12p_block_symm and C12p_paraboloid_entry (paraboloid in standard normal space: the curvature matrix is R diag(kappa) R^T with R R^T = 1 for any orthonormal rows orthogonal to the design direction), C12r_rows (the rows the model builds - argmax column, coincidence test, Gram-Schmidt loops - are orthonormal and orthogonal to the design direction whenever the U-space gradient is non-zero).'),
+                note=' Translation validation of the regenerated formulas at Float against breitungSORM / tvedtSORM / hrackSORM (1e-11, Tvedt 1e-9). The curvature-extraction model (gradient pull-back, alignment vector, argmax column, Gram-Schmidt, U-space Hessian with the curvature of the marginal maps, conjugation) is compared with the implementation on random normal / lognormal problems at 2e-5; theorems C12p_block_flat (flat limit surface => all entries 0, so SORM = FORM end to end on the model), C12p_block_symm and C12p_paraboloid_entry (paraboloid in standard normal space: the curvature matrix is R diag(kappa) R^T with R R^T = 1 for any orthonormal rows orthogonal to the design direction), C12r_rows (the rows the model builds - argmax column, coincidence test, Gram-Schmidt loops - are orthonormal and orthogonal to the design direction whenever the U-space gradient is non-zero), C12p_paraboloid_model (the two combined: for a paraboloid in standard normal space the curvature matrix the model computes with its own rows is R diag(kappa) R^T with R R^T = 1).'),
     'C13': dict(technique=' + the returned pf as a function of the level list (Subset.pf) with the product theorem',
                 text=' run_shape / C13_pf_product / C13_pf_le_one: every level before the last stored p0 with a positive threshold; when the last level reached the zero threshold with k of N samples in the failure set the returned pf is p0^(m-1) k / N, hence in [0, 1]. chain_contract / C13_nested_from_sampler: the contract assumed by the nestedness theorem is derived from the component-wise sampler model of C14 iterated with the domain function of subsetSimulation (a move to a different point is kept iff g < level), so nestedness holds end to end on the two models.',
                 note=' The returned pf is compared with the model product (p0 as the exact binary fraction) at 1e-12.'),
